@@ -48,6 +48,7 @@ where
         // set the default context before parsing begins
         let mut ctx = CIn::default();
         self.parser.set_context(&ctx);
+        let original_position = input.get_position();
         match self.parser.parse(input) {
             Ok(first_value) => {
                 // set the context to the underlying parser
@@ -56,6 +57,7 @@ where
                 // seed the result
                 let mut result = self.combiner.seed(first_value);
                 loop {
+                    let position = input.get_position();
                     match self.parser.parse(input) {
                         Ok(value) => {
                             // set the context of the underlying parser to the current value
@@ -65,6 +67,8 @@ where
                             result = self.combiner.accumulate(result, value);
                         }
                         Err(err) if err.is_soft() => {
+                            // the result ends after the last successful element
+                            input.set_position(position);
                             break;
                         }
                         Err(err) => {
@@ -75,6 +79,7 @@ where
                 Ok(result)
             }
             Err(err) if err.is_soft() => {
+                input.set_position(original_position);
                 if self.allow_none {
                     Ok(O::default())
                 } else {
